@@ -45,12 +45,12 @@ func ruleDequePopZero(c *Ctx, r *R) {
 			switch x := in.(type) {
 			case *ssa.UnOp:
 				if x.Op == token.MUL {
-					if ia, ok := x.X.(*ssa.IndexAddr); ok && path(ia) == "d.a[d."+end+"]" && q == 0 {
+					if ia, ok := x.X.(*ssa.IndexAddr); ok && isEndSlot(ia, end) && q == 0 {
 						return ss(1), true
 					}
 				}
 			case *ssa.Store:
-				if ia, ok := x.Addr.(*ssa.IndexAddr); ok && path(ia) == "d.a[d."+end+"]" && isZeroValue(x.Val) && q == 1 {
+				if ia, ok := x.Addr.(*ssa.IndexAddr); ok && isEndSlot(ia, end) && isZeroValue(x.Val) && q == 1 {
 					return ss(2), true
 				}
 				if _, f2, ok := storedField(x.Addr); ok && f2 == end && q == 1 {
@@ -94,7 +94,21 @@ func ruleDequeValidateFirst(c *Ctx, r *R) {
 				}
 			}
 		}
-		good := len(guards) > 0
+		// calls of in-package helpers that themselves contain an explicit panic guard validate on behalf of fn
+		var validating []*ssa.Call
+		instrs(fn, func(b *ssa.BasicBlock, i int, in ssa.Instruction) {
+			if call, ok := in.(*ssa.Call); ok {
+				if cal := staticCallee(&call.Call); cal != nil && cal.Blocks != nil && rootFn(cal).Pkg == fn.Pkg && cal.Name() != "resize" && cal.Name() != "Len" {
+					for _, cb := range cal.Blocks {
+						if _, isPanic := cb.Instrs[len(cb.Instrs)-1].(*ssa.Panic); isPanic {
+							validating = append(validating, call)
+							break
+						}
+					}
+				}
+			}
+		})
+		good := len(guards) > 0 || len(validating) > 0
 		why := "no explicit panic guard"
 		instrs(fn, func(b *ssa.BasicBlock, i int, in ssa.Instruction) {
 			sensitive := false
@@ -112,6 +126,12 @@ func ruleDequeValidateFirst(c *Ctx, r *R) {
 			}
 			if !sensitive {
 				return
+			}
+			for _, vc := range validating {
+				if !(vc.Block() == b && idxIn(vc) < i) && !(vc.Block() != b && vc.Block().Dominates(b)) {
+					good = false
+					why = "a store / element access at " + c.pos(in.Pos()) + " is not preceded by the validating call " + calleeName(&vc.Call)
+				}
 			}
 			// must be dominated by the non-panic edge of every guard
 			for _, g := range guards {
@@ -162,18 +182,17 @@ func ruleDequeValidateFirst(c *Ctx, r *R) {
 }
 
 func modReduced(v ssa.Value) bool {
-	switch x := v.(type) {
-	case *ssa.BinOp:
-		if x.Op == token.REM && strings.HasPrefix(path(x.Y), "len(") && strings.HasSuffix(path(x.Y), ".a)") {
-			return true
-		}
-	case *ssa.Call:
-		if cal := staticCallee(&x.Call); cal != nil && cal.Name() == "positiveMod" && len(x.Call.Args) == 2 {
-			p := path(x.Call.Args[1])
-			return strings.HasPrefix(p, "len(") && strings.HasSuffix(p, ".a)")
-		}
+	_, ok := symOf(v, provEnv{}).modLen("a")
+	return ok
+}
+
+// isEndSlot: ia addresses d.a[d.<end>] (through whatever aliases / helpers)
+func isEndSlot(ia *ssa.IndexAddr, end string) bool {
+	fld, base, ok := rootField(ia.X)
+	if !ok || fld != "a" || !isNamedType(base.Type(), "container/deque", "Deque") {
+		return false
 	}
-	return false
+	return symOf(ia.Index, provEnv{}).fieldSuffix(end)
 }
 
 func ruleDequeIndexDiscipline(c *Ctx, r *R) {
@@ -196,25 +215,26 @@ func ruleDequeIndexDiscipline(c *Ctx, r *R) {
 				}
 				k++
 				key := name + "|store:" + f + "#" + itoa(k)
-				v := x.Val
-				vp := path(v)
-				_, isConst := v.(*ssa.Const)
-				other := vp == "d.front" || vp == "d.back"
-				oldLen := strings.Contains(name, "resize") && strings.HasPrefix(vp, "(Deque.Len(d)-1")
-				r.ok(isConst || other || oldLen || modReduced(v), key, x.Pos(), f+" is assigned "+vp+", which is neither a constant, the other end, nor reduced modulo len(d.a): the index can leave the buffer")
+				e := symOf(x.Val, provEnv{})
+				other := e.fieldSuffix("front") || e.fieldSuffix("back")
+				oldLen := false
+				if strings.Contains(name, "resize") && e.op == "-" && len(e.args) == 2 && e.args[1].isConst(1) {
+					a0 := e.args[0]
+					oldLen = (a0.op == "call" && a0.s == "Len") || a0.inl == "Len" || a0.op == "leaf" // the old length (read before d.a is replaced - checked by resize-only)
+				}
+				_, mod := e.modLen("a")
+				r.ok(e.op == "const" || other || oldLen || mod, key, x.Pos(), f+" is assigned "+e.String()+", which is neither a constant, the other end, nor reduced modulo len(d.a): the index can leave the buffer")
 			case *ssa.IndexAddr:
 				fld, base, ok := rootField(x.X)
 				if !ok || fld != "a" || !isNamedType(base.Type(), "container/deque", "Deque") {
 					return
 				}
 				k++
-				ip := path(x.Index)
-				key := name + "|index:" + ip + "#" + itoa(k)
-				okIdx := strings.HasSuffix(ip, ".front") || strings.HasSuffix(ip, ".back") || isIterPosition(x.Index) || modReduced(x.Index)
-				if phi, isPhi := x.Index.(*ssa.Phi); isPhi {
-					_ = phi
-				}
-				r.ok(okIdx, key, x.Pos(), "d.a is indexed by "+ip+", which is neither front, back, the iterator's position nor reduced modulo len(d.a)")
+				e := symOf(x.Index, provEnv{})
+				key := name + "|index:" + e.String() + "#" + itoa(k)
+				_, mod := e.modLen("a")
+				okIdx := e.fieldSuffix("front") || e.fieldSuffix("back") || isIterPosition(x.Index) || mod
+				r.ok(okIdx, key, x.Pos(), "d.a is indexed by "+e.String()+", which is neither front, back, the iterator's position nor reduced modulo len(d.a)")
 			}
 		})
 	}
@@ -347,28 +367,17 @@ func ruleDequeStepDirection(c *Ctx, r *R) {
 			if _, f, ok := storedField(st.Addr); !ok || f != spec[1] {
 				return
 			}
-			// find the un-reduced step expression
-			var inner ssa.Value
-			switch x := st.Val.(type) {
-			case *ssa.BinOp:
-				if x.Op == token.REM {
-					inner = x.X
-				}
-			case *ssa.Call:
-				if cal := staticCallee(&x.Call); cal != nil && cal.Name() == "positiveMod" {
-					inner = x.Call.Args[0]
-				}
-			}
-			if inner == nil {
+			e := symOf(st.Val, provEnv{})
+			inner, ok := e.modLen("a")
+			if !ok {
 				return // constant / other-end assignment
 			}
 			found = true
-			bin, ok := inner.(*ssa.BinOp)
-			if !ok || path(bin.X) != "d."+spec[1] || !isConstInt(bin.Y, 1) {
+			if len(inner.args) != 2 || !inner.args[0].fieldSuffix(spec[1]) || !inner.args[1].isConst(1) {
 				good = false
 				return
 			}
-			if (spec[2] == "+" && bin.Op != token.ADD) || (spec[2] == "-" && bin.Op != token.SUB) {
+			if (spec[2] == "+" && inner.op != "+") || (spec[2] == "-" && inner.op != "-") {
 				good = false
 			}
 		})
@@ -515,16 +524,56 @@ func ruleDequeIterTermination(c *Ctx, r *R) {
 		}
 		r.ok(bad == "", "deque.dequeIterator.Next|end-return#"+itoa(k), retPos(ret), "the iterator reports exhaustion because of the position comparison `"+bad+"` made before reading: when the deque is exactly full, the position one past the back equals the front and a non-empty deque yields nothing")
 	})
-	// termination exists: some path sets a flag/counter after reading the back element, or compares with back after the read
-	after := false
+	// termination exists: the end-return is gated by a field of the iterator (a flag or a count) that Next itself writes
+	// (set once the back element was yielded) - identified by role, not by name
+	gate := map[string]bool{}
+	iterFieldOf := func(v ssa.Value) string {
+		pv := valueProv(v, provEnv{})
+		if pp, ok := pv.root.(*ssa.Parameter); ok && len(fn.Params) > 0 && pp == fn.Params[0] && len(pv.fields) == 1 {
+			return pv.fields[0]
+		}
+		return ""
+	}
 	instrs(fn, func(b *ssa.BasicBlock, i int, in ssa.Instruction) {
-		if st, ok := in.(*ssa.Store); ok {
-			if _, f, ok := storedField(st.Addr); ok && (f == "done" || f == "remaining" || f == "left") {
-				after = true
+		ret, ok := in.(*ssa.Return)
+		if !ok || len(ret.Results) != 2 {
+			return
+		}
+		kc, isC := ret.Results[1].(*ssa.Const)
+		if !isC || kc.Value == nil || kc.Value.String() != "false" {
+			return
+		}
+		gs := append(guardsOf(b), guardsOfSelf(b)...)
+		for _, p := range b.Preds {
+			if iff, ok := p.Instrs[len(p.Instrs)-1].(*ssa.If); ok {
+				gs = append(gs, expandGuard(guard{cond: iff.Cond, val: p.Succs[0] == b, blk: p}, 0)...)
+			}
+		}
+		for _, g := range gs {
+			if bv, ok := g.boolVal(); ok {
+				if f := iterFieldOf(bv); f != "" {
+					gate[f] = true
+				}
+			}
+			if cf, ok := g.asCmp(); ok {
+				for _, v := range []ssa.Value{cf.x, cf.y} {
+					if f := iterFieldOf(v); f != "" && !cursorPaths[path(v)] {
+						gate[f] = true
+					}
+				}
 			}
 		}
 	})
-	r.ok(after && k >= 1, "deque.dequeIterator.Next|terminates-after-back", fn.Pos(), "the iterator must record that it has yielded the back element (a flag or count), which is how it ends without a position comparison")
+	after := false
+	for _, di := range deepInstrs(fn, 2) {
+		if st, ok := di.in.(*ssa.Store); ok {
+			pv := addrProv(st.Addr, provEnv{chain: di.calls})
+			if pp, ok := pv.root.(*ssa.Parameter); ok && pp == fn.Params[0] && len(pv.fields) == 1 && gate[pv.fields[0]] {
+				after = true
+			}
+		}
+	}
+	r.ok(after && k >= 1, "deque.dequeIterator.Next|terminates-after-back", fn.Pos(), "the iterator must record that it has yielded the back element (a flag or count that gates its end-return and that Next itself sets), which is how it ends without a position comparison")
 }
 
 // isIterPosition: v is (a local copy of) an int field of the deque iterator struct - its cursor position.
